@@ -794,11 +794,23 @@ func (p *Program) externFullName(sp *ssa.Package, c *Contract) (string, error) {
 	var T types.Type
 	if i := strings.LastIndex(rt, "."); i >= 0 {
 		alias, name := rt[:i], rt[i+1:]
-		for path, pk := range p.AllPkgs {
-			if pk.Name == alias || path == alias {
-				if o := pk.Types.Scope().Lookup(name); o != nil {
+		// the package's own imports first (aliases of the contract file are imports of the overlay)
+		for _, imp := range sp.Pkg.Imports() {
+			if imp.Name() == alias || imp.Path() == alias || c.importAlias(p, alias) == imp.Path() {
+				if o := imp.Scope().Lookup(name); o != nil {
 					T = o.Type()
 					break
+				}
+			}
+		}
+		if T == nil {
+			for _, path := range sortedKeys(p.AllPkgs) {
+				pk := p.AllPkgs[path]
+				if pk.Name == alias || path == alias {
+					if o := pk.Types.Scope().Lookup(name); o != nil {
+						T = o.Type()
+						break
+					}
 				}
 			}
 		}
@@ -821,6 +833,21 @@ func (p *Program) externFullName(sp *ssa.Package, c *Contract) (string, error) {
 		return "", fmt.Errorf("extern %s: no method %s", c.RecvType, c.FuncName)
 	}
 	return fn.FullName(), nil
+}
+
+// importAlias resolves an alias declared by `//@ import alias "path"` in the contract's package.
+func (c *Contract) importAlias(p *Program, alias string) string {
+	cf := p.Files[c.PkgPath]
+	if cf == nil {
+		return ""
+	}
+	for _, im := range cf.Imports {
+		f := strings.Fields(im)
+		if len(f) == 2 && f[0] == alias {
+			return strings.Trim(f[1], `"`)
+		}
+	}
+	return ""
 }
 
 // GenFunc returns the generated overlay function of a clause.
